@@ -60,13 +60,15 @@ type CaseA struct {
 	Vals  map[string]vals.V `json:"vals"`            // the value each of them gives it
 	VType string            `json:"vtype"`           // string | int | bool | list | map
 	Ctor  string            `json:"ctor,omitempty"`  // "" / newfs = vuego.NewFS(fsys); withfs = vuego.New(vuego.WithFS(fsys))
-	Fill  string            `json:"fill"`            // map | struct | ptr
+	Fill  string            `json:"fill"`            // map | struct | ptr | mapss (map[string]string) | mapint (map[string]int) | namedmap (a named type over map[string]any) | embed / embedptr (struct embedding a struct by value / by pointer, the key is a PROMOTED field)
 	Addr  string            `json:"addr"`            // key | name | tag | tagopt | field
 	Pos   string            `json:"pos"`             // interp | expr | vif | attr | get
 	Decoy bool              `json:"decoy,omitempty"` // absent sources exist/are called, but define another key
 	Name  string            `json:"name,omitempty"`  // map data only: the key's name when it is not "kv" (names of default template functions)
 	Site  string            `json:"site,omitempty"`  // where the key is read: "" the page (no layouts) | chain-page | chain-mid | chain-outer: the page, the middle or the outer layout of the chain page.vuego -> layouts/post.vuego -> layouts/base.vuego (Have may then contain "lmid" / "louter": the key in the front-matter of the middle / outer layout)
 	Read  string            `json:"read,omitempty"`  // the name the template / Get reads when it is not the key: a CASE VARIANT of the key or of the struct's Go field name, which no source defines
+	Pad   int               `json:"pad,omitempty"`   // the page's front-matter also has a neighbour key whose value is a single line of this many characters
+	Bad   []string          `json:"bad,omitempty"`   // config files that do not decode into a mapping, see badFiles; each must be skipped alone
 	Store string            `json:"store,omitempty"` // how the files are stored: "" one filesystem | an OverlayFS layout, see stores
 	Ext   string            `json:"ext,omitempty"`   // names of the data files: "" a.yml+b.yml | yaml+yml | yml+yaml | yaml+yaml | samestem (c.yaml+c.yml)
 }
@@ -112,6 +114,18 @@ func dataNames(ext string) (da, db string, err error) {
 		return "data/c.yaml", "data/c.yml", nil // "c.yaml" < "c.yml"
 	}
 	return "", "", fmt.Errorf("malformed case: ext %q", ext)
+}
+
+// badFiles are config files that are not a YAML mapping. docs/data-loading.md: "Invalid YAML is
+// also skipped silently" - the file is skipped, every other file still loads. The names sort
+// before data/a.yml, between a.yml and b.yml, and after b.yml; "theme" replaces theme.yml itself
+// (only used when theme.yml is not one of the case's sources).
+var badFiles = map[string][2]string{
+	"before-list":    {"data/0-list.yml", "- label: Home\n- label: About\n"},
+	"between-scalar": {"data/am-scalar.yml", "just a scalar\n"},
+	"after-broken":   {"data/z-broken.yml", "zbroken: [unclosed\n  : :\n\t- x\n"},
+	"before-dupkeys": {"data/0-dup.yml", "zdup: one\nzdup: two\n"},
+	"theme":          {"theme.yml", "- not\n- a mapping\n"},
 }
 
 var exts = []string{"yaml+yml", "yml+yaml", "yaml+yaml", "samestem"}
@@ -305,6 +319,63 @@ func optStruct(vt string, v vals.V) (reflect.Value, error) {
 	return pv, nil
 }
 
+// Carriers of other shapes: typed maps and structs with promoted fields of an embedded struct.
+type (
+	namedMapT map[string]any
+	// EBaseN / EBaseT are embedded; their fields are promoted to the outer struct.
+	EBaseN struct {
+		Kv    string
+		Extra string
+	}
+	EBaseT struct {
+		Fv    string `json:"kv"`
+		Extra string `json:"extra"`
+	}
+	eOutN struct {
+		EBaseN
+		Own string
+	}
+	eOutNP struct {
+		*EBaseN
+		Own string
+	}
+	eOutT struct {
+		EBaseT
+		Own string `json:"own"`
+	}
+	eOutTP struct {
+		*EBaseT
+		Own string `json:"own"`
+	}
+)
+
+// shapedFill builds the Fill argument of the extra carrier kinds (ok=false: not one of them).
+func (c CaseA) shapedFill(v vals.V) (any, bool, error) {
+	switch c.Fill {
+	case "mapss":
+		return map[string]string{c.key(): v.S, "extra": "x"}, true, nil
+	case "mapint":
+		n, ok := v.Go().(int)
+		if !ok {
+			return nil, true, fmt.Errorf("malformed case: mapint needs an int value")
+		}
+		return map[string]int{c.key(): n, "extra": 1}, true, nil
+	case "namedmap":
+		return namedMapT{c.key(): v.Go(), "extra": "x"}, true, nil
+	case "embed":
+		if c.Addr == "tag" {
+			return eOutT{EBaseT{v.S, "x"}, "o"}, true, nil
+		}
+		return eOutN{EBaseN{v.S, "x"}, "o"}, true, nil
+	case "embedptr":
+		if c.Addr == "tag" {
+			return &eOutTP{&EBaseT{v.S, "x"}, "o"}, true, nil
+		}
+		return &eOutNP{&EBaseN{v.S, "x"}, "o"}, true, nil
+	}
+	return nil, false, nil
+}
+
 func strsOf(v vals.V) []string {
 	if len(v.L) == 0 {
 		return nil
@@ -318,6 +389,9 @@ func strsOf(v vals.V) []string {
 
 // fillArg builds the value handed to Fill.
 func (c CaseA) fillArg(v vals.V) (any, error) {
+	if arg, ok, err := c.shapedFill(v); ok {
+		return arg, err
+	}
 	if c.Fill == "map" {
 		return map[string]any{c.key(): v.Go(), "extra": "x"}, nil
 	}
@@ -388,6 +462,12 @@ func (c CaseA) fillArg(v vals.V) (any, error) {
 
 func (c CaseA) decoyFill() any {
 	switch c.Fill {
+	case "mapss":
+		return map[string]string{"zother": "decoyfill"}
+	case "mapint":
+		return map[string]int{"zother": 0}
+	case "namedmap":
+		return namedMapT{"zother": "decoyfill"}
 	case "map":
 		return map[string]any{"zother": "decoyfill"}
 	case "ptr":
@@ -551,6 +631,8 @@ func (c CaseA) files() map[string]string {
 	f := map[string]string{}
 	page := ""
 	switch {
+	case c.has("fm") && c.Pad > 0:
+		page = "---\nzpad: " + strings.Repeat("p", c.Pad) + "\n" + yamlOf(k, c.Vals["fm"]) + "zafter: q\n---\n"
 	case c.has("fm"):
 		page = "---\n" + yamlOf(k, c.Vals["fm"]) + "---\n"
 	case c.Decoy:
@@ -577,6 +659,11 @@ func (c CaseA) files() map[string]string {
 			ofm = "---\n" + yamlOf(k, c.Vals["louter"]) + "---\n"
 		}
 		f["layouts/base.vuego"] = ofm + bodies["chain-outer"] + slot
+	}
+	for _, b := range c.Bad {
+		if bf, ok := badFiles[b]; ok {
+			f[bf[0]] = bf[1]
+		}
 	}
 	daName, dbName, _ := dataNames(c.Ext)
 	for _, sn := range [][2]string{{"da", daName}, {"db", dbName}, {"theme", "theme.yml"}} {
@@ -626,6 +713,14 @@ func checkA(c CaseA) error {
 	}
 	if c.Site != "" && (c.Decoy || (c.Pos == "get" && c.Site != "chain-page")) {
 		return fmt.Errorf("malformed case: chain sites take no decoys, and Get reads the page")
+	}
+	for _, b := range c.Bad {
+		if _, ok := badFiles[b]; !ok || (b == "theme" && (c.has("theme") || c.Decoy)) || c.Ext != "" {
+			return fmt.Errorf("malformed case: bad config file %q", b)
+		}
+	}
+	if c.Pad < 0 || c.Pad > 200000 || (c.Pad > 0 && (!c.has("fm") || c.Site != "")) {
+		return fmt.Errorf("malformed case: pad needs the page's own front-matter")
 	}
 	if c.Read != "" {
 		ok := false
@@ -680,6 +775,9 @@ func checkA(c CaseA) error {
 
 	// every recognisable value that must NOT be seen: the values of the losing sources
 	losers := func(got string) error {
+		if strings.Contains(got, "zpad") || strings.Contains(got, "pppppppp") {
+			return fmt.Errorf("%s: the front-matter block itself shows up in %q", desc, got[:min(len(got), 200)])
+		}
 		if strings.Contains(got, "shadowed") {
 			return fmt.Errorf("%s: saw %q: the value of a config file that an upper overlay layer shadows", desc, got)
 		}
@@ -935,6 +1033,75 @@ func enumA(f func(c CaseA, excluded string) bool) {
 				have = append(have, s)
 			}
 		}
+		// other carrier shapes: typed maps, promoted fields of embedded structs
+		for _, fm := range [][3]string{{"mapss", "key", "string"}, {"namedmap", "key", "string"}, {"mapint", "key", "int"}, {"embed", "name", "string"}, {"embed", "tag", "string"}, {"embedptr", "name", "string"}, {"embedptr", "tag", "string"}} {
+			vs := map[string]vals.V{}
+			for _, s := range have {
+				idx := 0
+				for i, o := range order {
+					if o == s {
+						idx = i
+					}
+				}
+				vs[s] = canon(fm[2], s, idx)
+			}
+			for _, pos := range positions {
+				if len(have) == 0 && pos == "expr" {
+					continue
+				}
+				c := CaseA{Have: have, Vals: vs, VType: fm[2], Ctor: "newfs", Fill: fm[0], Addr: fm[1], Pos: pos}
+				if !f(c, excludedA(known, c)) {
+					return
+				}
+			}
+		}
+		// long front-matter lines: a neighbour key (and the key's own value) of 100 ... 70000 characters
+		if mask&1 != 0 {
+			for _, pad := range []int{100, 4000, 5000, 70000} {
+				for _, own := range []bool{false, true} {
+					if own && pad > 5000 {
+						continue
+					}
+					vs := map[string]vals.V{}
+					for _, s := range have {
+						vs[s] = canon("string", s, 0)
+					}
+					c := CaseA{Have: have, Vals: vs, VType: "string", Ctor: "newfs", Fill: "map", Addr: "key", Pad: pad}
+					if own {
+						vs["fm"] = vals.Str("vfm" + strings.Repeat("w", pad))
+						c.Pad = 0
+					}
+					for _, pos := range positions {
+						if pad > 5000 && (pos == "expr" || pos == "attr") {
+							continue // the largest size in three positions only (cost)
+						}
+						c.Pos = pos
+						if !f(c, excludedA(known, c)) {
+							return
+						}
+					}
+				}
+			}
+		}
+		// config files that are not a mapping, sorted before / between / after the ones that count
+		for _, bad := range [][]string{{"before-list"}, {"between-scalar"}, {"after-broken"}, {"before-dupkeys"}, {"before-list", "between-scalar", "after-broken"}, {"theme"}, {"theme", "between-scalar"}} {
+			if bad[0] == "theme" && mask&(1<<5) != 0 {
+				continue
+			}
+			vs := map[string]vals.V{}
+			for _, s := range have {
+				vs[s] = canon("string", s, 0)
+			}
+			for _, pos := range positions {
+				if len(have) == 0 && pos == "expr" {
+					continue
+				}
+				c := CaseA{Have: have, Vals: vs, VType: "string", Ctor: "newfs", Fill: "map", Addr: "key", Pos: pos, Bad: bad}
+				if !f(c, excludedA(known, c)) {
+					return
+				}
+			}
+		}
 		// names that differ only in case from the key / the struct's field names: defined nowhere
 		for _, fm := range [][2]string{{"map", "key"}, {"struct", "name"}, {"ptr", "name"}, {"struct", "tag"}, {"ptr", "tag"}, {"struct", "tagopt"}, {"ptr", "tagopt"}} {
 			variants := []string{"KV", "Kv"}
@@ -1127,10 +1294,26 @@ func excludedA(known *kf.File, c CaseA) string {
 			return findFieldName
 		}
 	}
+	// Typed maps / promoted fields reach the template only through the root-data fallback, which
+	// ranks below the config files: left out exactly where Fill should win over a config file.
+	if c.has("fill") && !c.has("fm") && !c.has("assign") && (c.has("db") || c.has("da") || c.has("theme")) {
+		switch c.Fill {
+		case "mapss", "mapint", "namedmap":
+			if known.Open(findTypedMap) {
+				return findTypedMap
+			}
+		case "embed", "embedptr":
+			if known.Open(findPromoted) {
+				return findPromoted
+			}
+		}
+	}
 	return ""
 }
 
 const (
+	findTypedMap  = "C08-typed-map-loses-to-config"
+	findPromoted  = "C08-promoted-field-loses-to-config"
 	findGetAssign = "C08-get-assign-over-frontmatter"
 	findFieldName = "C08-tagged-field-go-name-invisible"
 )
@@ -1149,6 +1332,18 @@ func classifyA(c CaseA) (bool, []string) {
 	}
 	if c.Name != "" {
 		cls = append(cls, "key-named-like-a-template-function")
+	}
+	if c.Pad > 0 {
+		cls = append(cls, fmt.Sprintf("front-matter-neighbour-line-of-%d-chars", c.Pad))
+	}
+	if v, ok := c.Vals["fm"]; ok && len(v.S) > 50 {
+		cls = append(cls, fmt.Sprintf("front-matter-value-of-%d-chars", len(v.S)-3))
+	}
+	for _, b := range c.Bad {
+		cls = append(cls, "non-mapping-config-file="+b)
+	}
+	if len(c.Bad) > 0 && (c.has("da") || c.has("db")) {
+		cls = append(cls, "non-mapping-config-file-next-to-data-files-defining-the-key")
 	}
 	if c.Read != "" {
 		cls = append(cls, "reads-a-case-variant-no-source-defines")
